@@ -1001,6 +1001,19 @@ def rule_a10(F):
     return r
 
 
+def rule_a11(F):
+    """C02.L1 under C05's id: the layout a script computes for Option / Result / Verdict (size, payload offsets) is the union of the
+    per-variant `(u8 tag, fields..)` walks - which is what rustc gives the #[repr(u8)] mirror enums.  A different construction
+    (tag followed by a union of payloads) changes the SIZE for some payload mixtures and with it the stride of script-built lists."""
+    from . import c02
+    r = c02.rule_l1(F)
+    r.rule = "C05.A11"
+    r.desc = "enum layouts are the union of per-variant (tag, fields..) walks, as rustc lays out the #[repr(u8)] mirrors (sizes and strides agree across the boundary)"
+    for v in r.violations:
+        v.rule = "C05.A11"
+    return r
+
+
 def rules(ctx):
     F = ctx["F"]
-    return [rule_a1(F), rule_a2(F), rule_a3(F), rule_a4(F), rule_a5(F), rule_a6(F), rule_a7(F), rule_a8(F), rule_a9(F), rule_a10(F)]
+    return [rule_a1(F), rule_a2(F), rule_a3(F), rule_a4(F), rule_a5(F), rule_a6(F), rule_a7(F), rule_a8(F), rule_a9(F), rule_a10(F), rule_a11(F)]
